@@ -181,6 +181,7 @@ pub fn op(cfg: ProgCfg, nkeys: usize, nblobs: usize) -> BoxedStrategy<Op> {
         m.foreign,
         (k(), k(), gen::addr_ref(nblobs)).prop_map(|(bucket_of, key, addr)| Op::ForeignRecord { bucket_of, key, addr }).boxed(),
     );
+    add(m.foreign.min(1), (k(), k()).prop_map(|(bucket_of, key)| Op::ForeignTombstone { bucket_of, key }).boxed());
     add(
         m.two_writers,
         (gen::write_spec(cfg.wmix, nkeys, nblobs), gen::write_spec(cfg.wmix, nkeys, nblobs), 0u8..4, 0u8..4)
@@ -311,6 +312,10 @@ pub fn remap_op(op: &mut Op, fk: &dyn Fn(usize) -> usize, fb: &dyn Fn(usize) -> 
             }
         }
         Op::DamageBucket { key, .. } => *key = fk(*key),
+        Op::ForeignTombstone { bucket_of, key } => {
+            *bucket_of = fk(*bucket_of);
+            *key = fk(*key);
+        }
         Op::ForeignRecord { bucket_of, key, addr } => {
             *bucket_of = fk(*bucket_of);
             *key = fk(*key);
